@@ -134,9 +134,11 @@ def expect(c):
         if c["imin"] == 13 and c["pmax"] == 12:
             eithers.append("configured-min-above-peer-max")
     if c["tlscfg"] != "enabled":
-        # TLS requested for the session but the TLS block of the configuration is not enabled:
-        # nothing to say about admission; the clear-text clause still applies
-        return "either", [], ["tls-requested-config-disabled"]
+        # TLS is requested for the session (connect(..., TlsMode::Client) / addListener(..., TlsMode::Server))
+        # but the configuration yields no TLS context for that role: enabled=false, or enabled=true with
+        # defaultMode None / the opposite role. Nobody can be authenticated and nothing can be encrypted on
+        # such a session, so it must fail closed: never announced, no application byte either way.
+        return "reject", ["tls-requested-not-configured"], []
     if reasons:
         return "reject", sorted(reasons), eithers
     if eithers:
@@ -198,9 +200,10 @@ def matrix():
     for api, send in apis:                                    # the three call paths on plain accept / reject cells
         for pcert, target in (("valid", "name"), ("wrongca", "name"), ("wrongname", "name"), ("expired", "ip")):
             add(mk(E, verify="on", trust="ca-right", pcert=pcert, target=target, api=api, send=send))
-    for api, send in apis:                                    # TLS requested, TLS block not enabled
-        for peer in ("openssl", "plaintext"):
-            add(mk(E, tlscfg="disabled", peer=peer, verify="on", trust="ca-right", api=api, send=send))
+    for tlscfg in ("disabled", "mode-none", "mode-other"):    # TLS requested, configuration yields no client context
+        for api, send in apis:
+            for peer in ("openssl", "plaintext"):
+                add(mk(E, tlscfg=tlscfg, peer=peer, verify="on", trust="ca-right", api=api, send=send))
 
     # ---- HTTP client
     E = "http-client"
@@ -250,9 +253,11 @@ def matrix():
             add(mk(E, peer="plaintext", verify=verify, trust="ca-right", send=send))
             for g in range(4):
                 add(mk(E, peer="garbage", garbage=g, verify=verify, trust="ca-right", send=send))
-    for send in sends:
-        for peer in ("openssl", "plaintext"):
-            add(mk(E, tlscfg="disabled", peer=peer, verify="off", send=send))
+    for tlscfg in ("disabled", "mode-none", "mode-other"):    # TLS listener requested, configuration yields no server context
+        for send in sends:
+            for peer in ("openssl", "plaintext"):
+                add(mk(E, tlscfg=tlscfg, peer=peer, verify="off", send=send))
+        add(mk(E, tlscfg=tlscfg, peer="plaintext", verify="on", trust="ca-right", pcert="none", send="early"))
 
     # ---- HTTP server
     E = "http-server"
@@ -380,7 +385,7 @@ def judge(c, o):
     iora_tok = "ctok" if client else "stok"
     if r.get("%s_has_%s" % (iora_dir, iora_tok)):
         if c["tlscfg"] != "enabled":
-            key = "C07:cleartext:%s:tls-requested-config-disabled:token-on-wire" % e
+            key = "C07:cleartext:%s:tls-requested-config-%s:token-on-wire" % (e, c["tlscfg"])
         elif c["peer"] != "openssl":
             key = "C07:cleartext:%s:%s-peer:token-on-wire" % (e, c["peer"])
         else:
@@ -445,7 +450,7 @@ def judge(c, o):
     if r.get("c2s_first", "").startswith("16"): cnt.append("relay_tls_records_seen")
     if r.get("conns", 0) > 0: cnt.append("relay_connections")
     if c["send"] == "early": cnt.append("early_send_cells")
-    if c["tlscfg"] != "enabled": cnt.append("tls_requested_config_disabled_cells")
+    if c["tlscfg"] != "enabled": cnt.append("tls_requested_not_configured_cells")
     return viols, retry, cnt
 
 
